@@ -45,7 +45,7 @@ impl Pairs {
             "$.s[?search(@,'a|b')]", "$.s[?match(@,'[')]", "$.s[?search(@,'[')]", "$[?match(@.b,'ab')]", "$[?search(@.b,'ab')]", "$.s[?match(@,'b')]", "$.s[?search(@,'b')]",
             // queries differing only in blanks, quotes or a trailing selector
             "$['x y']", "$['xy']", "$[ 'xy' ]", "$[\"xy\"]", "$.xy", "$['x y'].a", "$['xy'].a", "$['first name']", "$['firstname']", "$.firstname", "$.s[?@ == 'a b']", "$.s[?@ == 'ab']", "$.s[?@=='ab']", "$.s[?@ == 'ab c']", "$.s[?@ == 'abc']",
-            "$.a", "$.a[0]", "$.a[-1]", "$.a[*]", "$ .a", "$.a [0]", "$.A", "$.a[0,0]", "$.a[1:]", "$.a[::-1]", "$..a", "$..b", "$..*", "$[*]", "$", "$.k", "$[?@.a]", "$[?@.a == 1]", "$[?@.a == 2]", "$[?@.a > $.k]", "$[?count(@.*) > 1]",
+            "$.a[-3,-2,-1,0,1,2]", "$.a[0,1,2,3,4,5]", "$.a[-6,-5,-4,-3,-2,-1]", "$..[-2,-1,0,1,2,3]", "$.a", "$.a[0]", "$.a[-1]", "$.a[*]", "$ .a", "$.a [0]", "$.A", "$.a[0,0]", "$.a[1:]", "$.a[::-1]", "$..a", "$..b", "$..*", "$[*]", "$", "$.k", "$[?@.a]", "$[?@.a == 1]", "$[?@.a == 2]", "$[?@.a > $.k]", "$[?count(@.*) > 1]",
             "$[?length(@) > 2]", "$[?length(@) > 1]", "$.s[?length(@) == 2]", "$.s[?length(@) == 3]", "$..[?@.b]", "$.a[?@ > 1]", "$.a[?@ > 2]", "$[?@.b == 'x']", "$[?@.b == 'ab']", "$.p", "$..x", "$..leaf", "$..tag", "$..[0]",
             // literals that contain the other quote character followed by blanks; numeric member
             // names vs indices (entry points that take different routes)
